@@ -675,6 +675,51 @@ func isEntryTermB(t *Term) bool {
 	return false
 }
 
+// namedType: "int64", "float64", "bool", "string", "error" or "import/path.Name".
+func (se *specEnv) namedType(name string) types.Type {
+	switch name {
+	case "int64", "float64", "bool", "string", "error", "int":
+		return se.basicType(name)
+	}
+	dot := strings.LastIndex(name, ".")
+	if dot < 0 {
+		sfail("unknown type %q", name)
+	}
+	for _, pk := range se.f.ctx.eng.pkgs {
+		if pk.Types == nil {
+			continue
+		}
+		for _, imp := range pk.Types.Imports() {
+			if imp.Path() == name[:dot] {
+				if tn, ok := imp.Scope().Lookup(name[dot+1:]).(*types.TypeName); ok {
+					return tn.Type()
+				}
+			}
+		}
+	}
+	sfail("type %q not found among the imports of the loaded packages", name)
+	return nil
+}
+
+func (se *specEnv) basicType(name string) types.Type {
+	switch name {
+	case "int64":
+		return types.Typ[types.Int64]
+	case "int":
+		return types.Typ[types.Int]
+	case "float64":
+		return types.Typ[types.Float64]
+	case "bool":
+		return types.Typ[types.Bool]
+	case "string":
+		return types.Typ[types.String]
+	case "error":
+		return types.Universe.Lookup("error").Type()
+	}
+	sfail("unknown basic type %q", name)
+	return nil
+}
+
 func (se *specEnv) index(x, i SVal, e *SExpr) SVal {
 	f := se.f
 	if x.T == nil {
@@ -923,6 +968,30 @@ func (se *specEnv) call(e *SExpr) SVal {
 			return SVal{tv, sig.Results()}
 		}
 		return SVal{v, sig.Results().At(0).Type()}
+	case "extern":
+		// extern("path.Func", i, "type", args...): result i (of the named Go type) of a library function that is
+		// modelled as a deterministic function of its scalar arguments
+		if len(e.Args) < 3 {
+			sfail("extern(name, index, type, args...)")
+		}
+		name := "ext!" + e.Args[0].Str + "!" + e.Args[1].String()
+		rt := se.basicType(e.Args[2].Str)
+		var ts []*Term
+		for _, a := range e.Args[3:] {
+			ts = append(ts, se.term(a))
+		}
+		return SVal{f.ctx.uf(name, f.sortOf(rt), ts...), rt}
+	case "unbox":
+		// unbox(x, "T"): the value of dynamic type T held by the interface value x
+		x := se.eval(e.Args[0])
+		tt := se.namedType(e.Args[1].Str)
+		id := f.ctx.eng.sorts.TypeID(tt)
+		return SVal{f.ctx.uf(fmt.Sprintf("unbox!%d", id), f.sortOf(tt), f.asTerm(x.V)), tt}
+	case "box":
+		// box(v, "T"): the interface value holding v with dynamic type T
+		v := se.eval(e.Args[0])
+		tt := se.namedType(e.Args[1].Str)
+		return SVal{f.box(f.asTerm(v.V), tt), types.NewInterfaceType(nil, nil)}
 	case "ncalls":
 		// ncalls("pkg.F"): how many calls to the `traced` function F have completed (ghost counter)
 		key := e.Args[0].Str
